@@ -127,7 +127,76 @@ def stop_tests(facts):
                             if nxt and any(callee_name(c) == "read_break" for c in ir.calls_in(nxt[0])):
                                 stop = True
             out.append((f, n, name, stop, n.get("l", 0)))
+            if name == "BREAK" and ctrl is not None:
+                POLARITY[id(n)] = _break_known_where_consumed(n, parents, ctrl)
     return out
+
+
+POLARITY = {}
+
+
+def _break_known_where_consumed(n, parents, ctrl):
+    """For a comparison of peek_type() with BREAK that decides where read_break() is called: does `peek_type() == BREAK` hold
+    at that call?  True / False, or None when the test does not decide it (or no read_break() depends on it)."""
+    croot = ctrl.get("cond") if ctrl.get("cond") is not None else ctrl.get("c")
+    if croot is None:
+        return None
+    chain = list(parents) + [n]
+    idx = None
+    for i, p_ in enumerate(chain):
+        if p_ is croot:
+            idx = i
+    if idx is None:
+        # the condition may be wrapped (casts / parens): take the first chain element below ctrl that lies inside croot
+        inside = set(id(x) for x in ir.walk(croot))
+        for i, p_ in enumerate(chain):
+            if id(p_) in inside:
+                idx = i
+                break
+    if idx is None:
+        return None
+
+    def descend(value):
+        v = value
+        for a, b in zip(chain[idx:], chain[idx + 1:]):
+            k = a.get("k")
+            if k == "Un" and a.get("op") == "!":
+                v = not v
+            elif k == "Bin" and a.get("op") == "&&":
+                if v is not True:
+                    return None
+            elif k == "Bin" and a.get("op") == "||":
+                if v is not False:
+                    return None
+            elif k in ("Cast", "Paren", "ExprWithCleanups"):
+                pass
+            else:
+                return None
+        return v
+    has_rb = lambda r: r is not None and any(callee_name(c) == "read_break" for c in ir.calls_in(r))
+    where = None
+    if ctrl.get("k") == "If":
+        if has_rb(ctrl.get("then")) and not has_rb(ctrl.get("else")):
+            where = True
+        elif has_rb(ctrl.get("else")) and not has_rb(ctrl.get("then")):
+            where = False
+    else:
+        body = ctrl.get("body")
+        if not has_rb(body) and not any(x.get("k") == "Break" for x in ir.walk(body)):
+            for p_ in reversed(parents):
+                if p_.get("k") == "Block" and any(ctrl is y for y in p_.get("s", [])):
+                    lst = p_["s"]
+                    i_ = [j for j, y in enumerate(lst) if y is ctrl][0]
+                    nxt = lst[i_ + 1:i_ + 2]
+                    if nxt and has_rb(nxt[0]):
+                        where = False           # the loop is left when its condition is false
+                    break
+    if where is None:
+        return None
+    t = descend(where)
+    if t is None:
+        return None
+    return t if n.get("op") == "==" else (not t)
 
 
 def check_stop_agreement(run, rule):
@@ -146,6 +215,13 @@ def check_stop_agreement(run, rule):
             continue
         want = "BREAK" if contract == "BREAK" else "SIMPLE"
         ok = name == want
+        if ok and POLARITY.get(id(n)) is False:
+            run.ob(rule, key + ":polarity", False, f, line,
+                   "read_break() is called where this test says the next byte is NOT the stop code, and the items are taken where it says "
+                   "it is: a well-formed indefinite-length item is refused (read_break() throws on its first member) or its stop code is "
+                   "read as a member")
+        elif ok and POLARITY.get(id(n)) is True:
+            run.ob(rule, key + ":polarity", True, f, line, "read_break() is called where the test has found the stop code")
         run.ob(rule, key, ok, f, line,
                "stop code tested against CborType::%s, as peek_type reports it" % want if ok else
                "end-of-indefinite test compares peek_type() with CborType::%s, but peek_type returns CborType::%s for the stop "
@@ -1018,6 +1094,149 @@ def check_string_accumulates(run, rule):
     run.floor(rule, 2, "stores into the result of read_string")
 
 
+def check_skip_bookkeeping(run, rule):
+    """R07.13: the explicit work stack of skip_item (one entry {items left, indefinite?} per open nesting level).  The dispatch
+    table (R07.1) says what is pushed for every head; this rule is about when an entry leaves the stack again - what makes the
+    function stop after exactly one item:
+      * read_break() is called only for a level whose flag says indefinite, and that level is popped in the same branch;
+      * a level whose flag says definite is popped when its count is zero, and counted down (once) otherwise;
+      * every `continue` in front of the head follows a pop (the loop would not advance otherwise).
+    The recursive form has no such bookkeeping (the call stack does it) and gets no obligations here."""
+    facts = run.facts
+    f = dfn(facts, "skip_item", rule)
+    loop = None
+    S = None
+    for lp in ir.walk(f["body"]):
+        if lp.get("k") in ("While", "For", "Do"):
+            c = lp.get("cond") if lp.get("cond") is not None else lp.get("c")
+            for x in ir.walk(c) if c is not None else []:
+                if x.get("k") == "MCall" and callee_name(x) == "empty" and path(x.get("recv")) and path(x["recv"])[0].startswith("l:"):
+                    loop, S = lp, path(x["recv"])
+            if loop is not None:
+                break
+    if loop is None:
+        run.info["skip_item_form"] = "no explicit work stack"
+        return
+    sname = path_str(S)
+    body = ir.stmts(loop.get("body"))
+    head_i = None
+    for i, st in enumerate(body):
+        if any(callee_qn(c) == "CDNS::CdnsDecoder::read_cbor_type" for c in ir.calls_in(st)) or \
+                (st.get("k") == "Decl" and any(decoder.is_mp_deref(unwrap_all_casts(x)) is not None for x in ir.walk(st))):
+            head_i = i
+            break
+    if head_i is None:
+        run.ob(rule, "skip_item:bookkeeping", None, f, loop.get("l", f["line"]), "the statement that reads the head was not found in the work loop")
+        return
+    # field roles: the element type's first member counts, the second says indefinite (as the pushes are read by R07.1)
+    et = None
+    for d in ir.walk(f["body"]):
+        if d.get("k") == "Decl":
+            for v in d.get("vars", []):
+                if "l:%s#%s" % (v.get("n"), v.get("id")) == S[0]:
+                    et = v.get("t") or ""
+    rec = None
+    for qn, r_ in facts.records.items():
+        if et and qn.split("::")[-1] and ("<" + qn.split("::")[-1] + ">" in et.replace("struct ", "") or "<" + qn + ">" in et or qn.split("::")[-1] + "," in et):
+            if len(r_.get("fields", [])) == 2:
+                rec = r_
+    if rec is None:
+        run.ob(rule, "skip_item:bookkeeping", None, f, loop.get("l", f["line"]), "element type of the work stack %s (%s) not understood" % (sname, et))
+        return
+    COUNT, FLAG = rec["fields"][0]["n"], rec["fields"][1]["n"]
+    pro = body[:head_i]
+    pro_nodes = set(id(x) for st in pro for x in ir.walk(st))
+    env = Env(f["body"])
+
+    # the innermost level: `S.back()` or a local reference bound to it
+    level = ["%s.back()" % sname]
+    for d in ir.walk(loop.get("body")):
+        if d.get("k") == "Decl":
+            for v in d.get("vars", []):
+                i_ = unwrap_all_casts(v.get("init")) if v.get("init") is not None else None
+                if isinstance(i_, dict) and i_.get("k") == "MCall" and callee_name(i_) == "back" and path(i_.get("recv")) == S and (v.get("t") or "").endswith("&"):
+                    level.append("l:%s#%s" % (v.get("n"), v.get("id")))
+
+    def is_member(txt, member):
+        return any(str(txt) == "%s.%s" % (lv, member) for lv in level)
+
+    def has_flag(g, positive):
+        for a in conjuncts(g):
+            neg = False
+            while isinstance(a, tuple) and a and a[0] == "not":
+                neg = not neg
+                a = a[1]
+            if isinstance(a, tuple) and len(a) >= 2 and a[0] in ("call", "nz") and is_member(a[1], FLAG):
+                if neg != positive:
+                    return True
+        return False
+
+    def count_zero(g):
+        for a in conjuncts(g):
+            if isinstance(a, tuple) and a[0] == "not" and isinstance(a[1], tuple) and a[1][0] == "nz" and is_member(a[1][1], COUNT):
+                return True
+            if isinstance(a, tuple) and a[0] == "cmp" and a[1] == "==" and "0" in (a[2], a[3]) and (is_member(a[2], COUNT) or is_member(a[3], COUNT)):
+                return True
+        return False
+    lists = [pro] + [ir.stmts(n.get(br)) for st in pro for n in ir.walk(st) if n.get("k") == "If" for br in ("then", "else") if n.get(br) is not None] + \
+        [n.get("s", []) for st in pro for n in ir.walk(st) if n.get("k") == "Block"]
+
+    def list_of(node):
+        for lst in lists:
+            if any(unwrap(y) is node or y is node for y in lst):
+                return lst
+        return None
+    is_pop = lambda y: isinstance(unwrap(y), dict) and unwrap(y).get("k") == "MCall" and callee_name(unwrap(y)) == "pop_back" and path(unwrap(y).get("recv")) == S
+    n_rb = n_pop0 = n_dec = 0
+    for st, g, loops_ in ir.guarded_statements(f["body"], env):
+        if st.get("k") in ("IfCond", "LoopHead", "SwitchHead") or id(st) not in pro_nodes:
+            continue
+        u = unwrap(st)
+        if isinstance(u, dict) and u.get("k") == "MCall" and callee_name(u) == "read_break":
+            n_rb += 1
+            lst = list_of(u) or []
+            ok = has_flag(g, True) and any(is_pop(y) for y in lst)
+            run.ob(rule, "skip_item:stop-code-ends-indefinite-level#%d" % n_rb, ok, f, u.get("l", 0),
+                   "the stop code is taken for a level marked indefinite, and the level is popped" if ok else
+                   ("the stop code is consumed for a level that is %s" % ("not known to be indefinite (the test of `%s` is missing or inverted): a "
+                    "definite-length container followed by a break, or an indefinite one, is mis-skipped" % FLAG) if not has_flag(g, True) else
+                    "not popped afterwards: the level stays open and the items after the container are skipped as well"))
+        if is_pop(st) and has_flag(g, False):
+            n_pop0 += 1
+            ok = count_zero(g)
+            run.ob(rule, "skip_item:definite-level-popped-at-zero#%d" % n_pop0, ok, f, u.get("l", 0),
+                   "a definite level is popped when no item of it is left" if ok else
+                   "a definite level is popped under %s, not when its count has reached zero" % show_f(g))
+        if (isinstance(u, dict) and u.get("k") == "Un" and u.get("op") in ("pre--", "post--") and is_member(show(u.get("e")), COUNT)) or \
+                (isinstance(u, dict) and u.get("k") == "Bin" and u.get("op") == "-=" and is_member(show(u.get("lhs")), COUNT)):
+            n_dec += 1
+            ok = has_flag(g, False) and not count_zero(g)
+            run.ob(rule, "skip_item:item-counted#%d" % n_dec, ok, f, u.get("l", 0),
+                   "one item is counted off the definite level the next head belongs to" if ok else
+                   "the count is decremented under %s: it must happen for a definite level (`!%s`) that still has items" % (show_f(g), FLAG))
+        if st.get("k") == "Continue":
+            lst = list_of(st) or []
+            i_ = [j for j, y in enumerate(lst) if y is st]
+            ok = bool(i_) and any(is_pop(y) for y in lst[:i_[0]])
+            run.ob(rule, "skip_item:continue-after-pop@%s" % st.get("l", 0), ok, f, st.get("l", 0),
+                   "the iteration is restarted after a level was removed" if ok else
+                   "`continue` without a pop in front of it: the same level is looked at again and again, or a finished level is never removed")
+    # a different discipline (the count written somewhere else in the loop, the stop code looked for after the dispatch ..)
+    # is not judged by this rule
+    other_count_writes = [x for x in ir.walk(loop.get("body")) if id(x) not in pro_nodes and (
+        (x.get("k") == "Un" and x.get("op") in ("pre--", "post--", "pre++", "post++") and show(x.get("e")).endswith("." + COUNT)) or
+        (x.get("k") == "Bin" and x.get("op") in ("=", "-=", "+=") and show(x.get("lhs")).endswith("." + COUNT)))]
+    other_rb = [c for c in ir.calls_in(loop.get("body")) if callee_name(c) == "read_break" and id(c) not in pro_nodes]
+    other_pop = [c for c in ir.calls_in(loop.get("body")) if callee_name(c) == "pop_back" and id(c) not in pro_nodes]
+    complete = n_rb >= 1 and n_pop0 >= 1 and n_dec >= 1
+    verdict = True if complete else None if ((n_dec == 0 and other_count_writes) or (n_rb == 0 and other_rb) or (n_pop0 == 0 and other_pop)) else False
+    run.ob(rule, "skip_item:levels-leave-the-stack", verdict, f, loop.get("l", f["line"]),
+           "the work loop ends indefinite levels at the stop code, definite ones at count zero, and counts items" if (n_rb and n_pop0 and n_dec) else
+           "in front of the head the work loop has %d read_break() for indefinite levels, %d pop at count zero, %d count-down: each is needed for the "
+           "function to stop after exactly one item" % (n_rb, n_pop0, n_dec))
+    run.info["skip_item_form"] = "explicit work stack %s {%s, %s}" % (sname, COUNT, FLAG)
+
+
 def check(run):
     from . import C05
     C05.check_window_state(run, "R07.10")       # a stale peek answers for the wrong item
@@ -1026,6 +1245,7 @@ def check(run):
     C05.check_typestate(run, "R07.11")          # bytes are taken from inside the window only: an item that straddles a refill decodes like any other
     check_string_accumulates(run, "R07.9")
     check_skip(run, "R07.1", "R07.3")
+    check_skip_bookkeeping(run, "R07.13")
     # the level stack of skip_item: a reference to the innermost level must not be used after the stack grew (the count of
     # the enclosing level would be updated in freed memory and one item too many skipped)
     from . import C03
